@@ -866,3 +866,12 @@ HARMLESS += [
     # the directory backend's temporary file opened without O_TRUNC: harmless THERE, because set_len(length) cuts it to the content's length before the copy
     dict(id="H-C20-local-tmp-not-truncated", prop="C20", file=LB13, old="                .create(true)\n                .truncate(true)\n                .write(true)", new="                .create(true)\n                .write(true)"),
 ]
+
+HARMLESS += [
+    # IndexPack::blob_type written with first().map_or (same meaning)
+    dict(id="H-C17-blob-type-map-or", prop="C17", file="crates/core/src/repofile/indexfile.rs", old="        if self.blobs.is_empty() {\n            BlobType::Data\n        } else {\n            self.blobs[0].tpe\n        }", new="        self.blobs.first().map_or(BlobType::Data, |blob| blob.tpe)"),
+]
+MUTATIONS += [
+    # check_pack accepts a compressed blob that decompresses to FEWER bytes than recorded
+    dict(id="C05-checkpack-short-decompression-accepted", prop="C05", file=CK13, old="            if blob_data.len() != length.get() as usize {", new="            if blob_data.len() > length.get() as usize {"),
+]
